@@ -71,7 +71,7 @@ class Budget:
         self.tier = tier
         self.max_paths = 400 if tier == "quick" else 3000
         self.ob_timeouts = (3000, 10000, 20000) if tier == "quick" else (10000, 60000, 120000)
-        self.reach_timeout = 2000
+        self.reach_timeout = 1000 if tier == "quick" else 3000
         self.cross_check = tier != "quick"
 
 
@@ -137,6 +137,59 @@ class SymCtx(BaseCtx):
     def fork(self, cond):
         """explicit case split in the harness"""
         return bool(_sb(cond))
+
+    def define(self, name, value):
+        """opaque named variable equal to `value` (keeps a sub-term shared/unexpanded for the solver)"""
+        from .alg import fresh
+        value = Alg.of(value)
+        vid = self.P.named_var("def_" + name, "def")
+        z = self.P.vars[vid].z
+        self.P.add_def(z == value.z3())
+        if value.d is None and not value.n.has_neg():
+            self.P.__dict__.setdefault("_defvals", {})[vid] = value.n
+        return Alg.var(vid)
+
+    def unfold(self, x):
+        """substitute the named variables introduced by define() by their values"""
+        from .alg import Poly
+        x = Alg.of(x)
+        defs = self.P.__dict__.get("_defvals", {})
+        if not defs or x.d is not None:
+            return x
+        out = Poly()
+        for m, c in x.n.t.items():
+            term = Poly({(): c})
+            rest = []
+            for v, e in m:
+                if v in defs:
+                    term = term * (defs[v] ** e)
+                else:
+                    rest.append((v, e))
+            out = out + term.mulmono(tuple(rest))
+        return Alg(out)
+
+    def lemma_by_unfolding(self, name, lhs, rhs):
+        """lhs == rhs holds syntactically once define()d names are unfolded: recorded as a discharged obligation
+        (normal form) and made available to later solver queries with the names kept opaque"""
+        d = self.unfold(Alg.of(lhs) - Alg.of(rhs))
+        ok = d.is_zero_syntactic()
+        self.runner.check_obligation(self, "lemma:" + name, TRUE if ok else _sb(Alg.of(lhs) == Alg.of(rhs)), None)
+        if ok:
+            c = _sb(Alg.of(lhs) == Alg.of(rhs))
+            if c.val is None:
+                self.P.conds.append(c.e)
+        return ok
+
+    def lemma(self, name, cond):
+        """auxiliary fact: must be discharged like any obligation; once discharged it is available to later queries"""
+        cond = _sb(cond)
+        before = (len(self.runner.res.inconclusive), len(self.runner.res.violations), len(self.runner.res.unconfirmed))
+        self.runner.check_obligation(self, "lemma:" + name, cond, None)
+        after = (len(self.runner.res.inconclusive), len(self.runner.res.violations), len(self.runner.res.unconfirmed))
+        if before == after and cond.val is not True:
+            if cond.val is False:
+                return
+            self.P.conds.append(cond.e)
 
     # generic comparisons (work in both modes)
     def eq(self, a, b):
@@ -266,6 +319,18 @@ class ConcCtx(BaseCtx):
     def fork(self, cond):
         return _cb(cond)
 
+    def define(self, name, value):
+        return value
+
+    def lemma(self, name, cond):
+        self.require("lemma:" + name, cond)
+
+    def lemma_by_unfolding(self, name, lhs, rhs):
+        self.require("lemma:" + name, self.eq(lhs, rhs))
+
+    def unfold(self, x):
+        return x
+
     def _scale(self, *xs):
         s = 1.0
         for x in xs:
@@ -384,11 +449,11 @@ def _z3_to_fraction(v):
         return Fraction(0)
 
 
-def _nice_model(constraints, P, timeout_ms=2500):
+def _nice_model(constraints, P, timeout_ms=2500, scales=((1, 4), (1, 12), (2, 16), (4, 64))):
     """try to find a model with small integer / half-integer inputs (replays exactly in floats)"""
     ins = [P.vars[v].z for v in P.input_vids]
     reals = [x for x in ins if x.sort() == z3.RealSort()]
-    for scale, bound in ((1, 4), (1, 12), (2, 16), (4, 64)):
+    for scale, bound in scales:
         s = z3.Solver()
         s.set("timeout", timeout_ms)
         for c in constraints:
@@ -436,7 +501,22 @@ class Runner:
         verdict = None
         model = None
         used = None
+        # ladder step: linear abstraction with zero-product axioms (can only conclude unsat)
+        try:
+            from .absnl import abstract
+            for tier in (0, 2):
+                if tier == 2 and not (P.order_conds or any(t > 0 for t, _ in P.defs)):
+                    break
+                r, s, dt = _solve(abstract(P.constraints(tier) + [neg]), min(4000, self.budget.ob_timeouts[0]))
+                if r == "unsat":
+                    verdict = "unsat"
+                    used = "abs"
+                    break
+        except Exception:
+            pass
         for tier, to in zip((0, 1, 2), self.budget.ob_timeouts):
+            if verdict == "unsat":
+                break
             cons = P.constraints(tier) + [neg]
             r, s, dt = _solve(cons, to)
             if r == "unsat":
@@ -453,7 +533,11 @@ class Runner:
                 continue
             # unknown: try next tier anyway (more constraints can make it easier), remember
             verdict = "unknown"
-        if verdict == "unsat":
+        if verdict == "unsat" and used == "abs":
+            res.by_step["linear-abstraction"] = res.by_step.get("linear-abstraction", 0) + 1
+            if len(res.samples) < 6:
+                res.samples.append({"case": self.case_name, "obligation": name, "verdict": "unsat (linear abstraction + zero-product axioms, z3)", "path": _dec_str(P)})
+        elif verdict == "unsat":
             res.by_step[f"t{used}"] += 1
             if self.budget.cross_check and res.cross["agree"] + res.cross["disagree"] < 12:
                 c5 = _cvc5_check(P.constraints(used) + [neg], 20000)
@@ -576,9 +660,9 @@ class Runner:
         res = self.res
         r, s, dt = _solve(P.constraints(2), self.budget.reach_timeout)
         res.reach[r if r in res.reach else "unknown"] += 1
-        if r == "sat" and res.validated < 40:
+        if r == "sat" and res.validated + len(res.validation_mismatch) < 12:
             # validate the path witness against the real implementation
-            m = _nice_model(P.constraints(2), P, 800) or s.model()
+            m = _nice_model(P.constraints(2), P, 400, scales=((1, 6), (2, 16))) or s.model()
             env = model_env(m, P)
             ok, info = self.replay(env, None)
             if info.get("failed") or (info.get("tag") or "ok") != tag:
